@@ -288,6 +288,10 @@ fn main() {
     o.flush().unwrap();
     drop(o);
 
+    if cfg.get("leader_exits").and_then(|v| v.as_bool()).unwrap_or(false) {
+        // only this thread exits: the thread-group leader becomes a zombie while the other threads keep running
+        unsafe { libc::syscall(libc::SYS_exit, 0) };
+    }
     let stdin = std::io::stdin();
     for line in stdin.lock().lines() {
         let Ok(line) = line else { break };
